@@ -326,10 +326,11 @@ type world struct {
 	commit   *types.Commit         // seen commit of the head block
 	pruned   map[uint64]bool
 	r        *rand.Rand
-	appAt    map[uint64][]appVal // height -> the application's list after that block (for rewinds)
-	schedule map[uint64][]appVal // the application's schedule (the script's; may be altered after a rewind)
-	inApply  bool                // set while BlockExecutor.ApplyBlock runs (a panic then is the real code's)
-	full     *fullStack          // non-nil: real BlockChain + BlockOperations instead of the scripted application
+	appAt    map[uint64][]appVal             // height -> the application's list after that block (for rewinds)
+	schedule map[uint64][]appVal             // the application's schedule (the script's; may be altered after a rewind)
+	inApply  bool                            // set while BlockExecutor.ApplyBlock runs (a panic then is the real code's)
+	full     *fullStack                      // non-nil: real BlockChain + BlockOperations instead of the scripted application
+	wrap     func(cstate.Store) cstate.Store // optional: observe the store's calls (group atomic)
 }
 
 func powerOf(r *rand.Rand, class int) int64 {
@@ -539,7 +540,11 @@ func genesisDoc(sc *script) *genesis.Genesis {
 }
 
 func newWorld(sc *script, r *rand.Rand, db kaidb.Database) (*world, error) {
-	w := &world{sc: sc, db: db, saved: map[uint64]*stateSnap{}, signers: map[uint64]setSnap{}, pruned: map[uint64]bool{}, r: r,
+	return newWorldWith(sc, r, db, nil)
+}
+
+func newWorldWith(sc *script, r *rand.Rand, db kaidb.Database, wrap func(cstate.Store) cstate.Store) (*world, error) {
+	w := &world{sc: sc, db: db, wrap: wrap, saved: map[uint64]*stateSnap{}, signers: map[uint64]setSnap{}, pruned: map[uint64]bool{}, r: r,
 		appAt: map[uint64][]appVal{}, schedule: map[uint64][]appVal{}}
 	for h, l := range sc.Schedule {
 		w.schedule[h] = l
@@ -565,6 +570,9 @@ func (w *world) bind() {
 		w.bus.Stop()
 	}
 	w.store = cstate.NewStore(w.db)
+	if w.wrap != nil {
+		w.store = w.wrap(w.store)
+	}
 	var cur []appVal
 	if w.app != nil {
 		cur = w.app.vals
@@ -805,6 +813,31 @@ func (o *obs) checkHead(db kaidb.Database, gdoc *genesis.Genesis, saved *stateSn
 			continue
 		}
 		o.violation(d.Key+suffix(phase), fmt.Sprintf("[%s, LoadStateFromDBOrGenesisDoc] %s", phase, d.What), nil)
+	}
+	// a restart with a genesis document whose consensus parameters differ from the persisted ones (a new release's
+	// compiled-in defaults: cmd/utils fills them in) must still return the state that was saved
+	if gdoc != nil && gdoc.ConsensusParams != nil {
+		g2 := *gdoc
+		p2 := *gdoc.ConsensusParams
+		p2.Block.MaxGas += 7
+		p2.Block.MaxBytes += 3
+		p2.Evidence.MaxAgeNumBlocks += 11
+		g2.ConsensusParams = &p2
+		var third cstate.LatestBlockState
+		if !o.guarded("load-or-other-genesis-"+phase, func() { third, err = cstate.NewStore(db).LoadStateFromDBOrGenesisDoc(&g2) }) {
+			return nil
+		}
+		if err != nil {
+			o.violation("load-or-genesis-error-"+phase, "LoadStateFromDBOrGenesisDoc (document with other consensus parameters): "+err.Error(), nil)
+			return nil
+		}
+		run.Count("restarts_with_a_genesis_document_of_other_params", 1)
+		for _, d := range cmpState(saved, snapState(&third)) {
+			if phase == "after-rewind" && strings.HasSuffix(d.Key, ":last-height-validators-changed") {
+				continue
+			}
+			o.violation(d.Key+":restart-with-other-genesis-params"+suffix(phase), fmt.Sprintf("[%s, LoadStateFromDBOrGenesisDoc with a genesis document whose consensus parameters differ from the saved ones] %s", phase, d.What), nil)
+		}
 	}
 	return &loaded
 }
@@ -1331,7 +1364,10 @@ func Main() {
 	r.Cases("short", r.N(400, 14000), core.Opts{Workers: 16}, shortCase)
 	r.Cases("long", r.N(300, 16000), core.Opts{Workers: 16}, longCase)
 	r.Cases("fullstack", r.N(12, 200), core.Opts{Workers: 6}, fullstackCase)
+	r.Cases("atomic", r.N(120, 4000), core.Opts{Workers: 16}, atomicCase)
 	if atomic.LoadInt64(&violationsRaised) == 0 { // a chain stops at its first violation, so floors say nothing then
+		r.Floor("saves_observed", 300)
+		r.Floor("restarts_with_a_genesis_document_of_other_params", 1000)
 		r.Floor("loads", 200)
 		r.Floor("static_heights_with_priority_moves", 100)
 		r.Floor("valset_changes", 50)
